@@ -34,11 +34,12 @@ def main():
     ap.add_argument('--override', action='append', default=[])
     ap.add_argument('--resolve-selects', action='store_true')
     ap.add_argument('--no-mpi-single', action='store_true')
+    ap.add_argument('--complex', action='store_true', help='complex-element build of the library')
     a = ap.parse_args()
     scratch = build.make_scratch('dev')
     try:
         t0 = time.time()
-        unit = build_unit(scratch, a.harness, a.D, extra_models=() if a.no_mpi_single else ('mpi_single.cpp',))
+        unit = build_unit(scratch, a.harness, a.D, extra_models=() if a.no_mpi_single else ('mpi_single.cpp',), complex_build=a.complex)
         t1 = time.time()
         mod = irfront.load_module(unit)
         t2 = time.time()
